@@ -23,6 +23,10 @@ CLAIMED = {
         technique="MIR path-sensitive guard analysis and stored-value flow: restriction guard shape on Open/Close, marker/stamp writes in the liquidation and trade replies, marker preservation by every vAMM-map writer",
         note="Decided: R16.1 guard on every success path of OpenPosition/ClosePosition for (msg.vamm, info.sender), marker consulted nowhere else; R16.2 rejection is the conjunction of marker==height and stamp==height; R16.3 both liquidation replies set the marker of tmp_swap.vamm to env.block.height; R16.4 every position store in a reply stamps env.block.height; R16.5 other vAMM-map writers preserve the marker. Not decided: nothing numeric; a fully liquidated (removed) position carries no stamp by design of the storage layout.",
         design="4/C16"),
+    "C14": dict(
+        technique="MIR path-sensitive guard analysis across contracts: pause / open / registered guards as facts on every success path of the tabled arms, cross-contract query parsing, registry guards, shutdown filter",
+        note="Decided: R14.1 State.pause tested on every success path of Open/Close/Deposit/Withdraw and never consulted by the Liquidate/PayFunding chains; R14.2 vAMM State.open tested in SwapInput/SwapOutput/SettleFunding; R14.3 IsVamm{msg.vamm} on config.insurance_fund and State.open of msg.vamm in Open/Liquidate/Withdraw/PayFunding; R14.4 duplicate and capacity(=3) guards before every registry store, membership queries read the same item; R14.5 shutdown emits SetOpen{false} only for vAMMs just read as open. Not decided: the run-time effect of a closed vAMM on ClosePosition is the composition of R14.2 with C08 (not re-derived).",
+        design="4/C14"),
 }
 
 NOT_BUILT = "rules designed in DESIGN.md section 4 but not built yet"
